@@ -292,6 +292,26 @@ def execute(case: dict):
                             break
                     if viols:
                         break
+                if not viols:
+                    # ... and identifiers that were never part of any document (built by hand, nothing ever attached
+                    # to them): whatever the library remembers about the address they land on is not theirs
+                    for _k in range(60):
+                        ident = Identifier(name=("n1", "n2", "n3")[_k % 3])
+                        keep.append(ident)
+                        if id(ident) in dead_ids:
+                            bump("probe:address_reuse")
+                        try:
+                            with StepBudget(STEP_BUDGET, prefix):
+                                val = ident.value
+                            got = reader.tokens_of_text(val.rebuild() if hasattr(val, "rebuild") else str(val))
+                            viols.append(Violation("C10.foreign_value", "a hand-made identifier that belongs to no document resolved to %r: the value comes from another expression's context" % (got,), step,
+                                                   {"doc": None, "what": "reuse_probe_bare", "expected": "unbound", "reused_address": id(ident) in dead_ids}))
+                            break
+                        except ResolutionError:
+                            pass
+                        except BudgetExceeded:
+                            viols.append(Violation("C10.unbounded", "resolution of a context-free identifier did not finish", step, {"doc": None, "what": "reuse_probe_bare"}))
+                            break
                 bump("reuse_probe_identifiers", 3 * len(keep) // 4)
                 del keep
                 if viols:
@@ -482,6 +502,33 @@ def execute(case: dict):
                 # reference answer: `inherit name;` in the target refers to the scope outside the target
                 r = resolver.Resolver(dec.doc).lookup(name, dec.shape.target, set(), [], 0)
                 check_resolution(d, "inherit " + name, cp, r, step, dec.shape.kinds())
+                # the handle of such a lookup is a temporary: look it up once more, let it die at once and put a
+                # hand-made identifier of the same kind in its place (the allocator hands the slot out again) - that
+                # one belongs to no document and must not resolve
+                try:
+                    t2 = src[name]
+                    try:
+                        t2.value
+                    except ResolutionError:
+                        pass
+                    was = id(t2)
+                    del t2
+                    bare = Identifier(name=name)
+                    if id(bare) == was:
+                        bump("probe:slot_reused_at_once")
+                    try:
+                        with StepBudget(STEP_BUDGET, prefix):
+                            val = bare.value
+                        got = reader.tokens_of_text(val.rebuild() if hasattr(val, "rebuild") else str(val))
+                        viols.append(Violation("C10.foreign_value", "a hand-made identifier `%s` that belongs to no document resolved to %r right after a temporary handle of the same name died" % (name, got), step,
+                                               {"doc": d, "what": "slot_probe", "expected": "unbound", "reused_address": id(bare) == was}))
+                    except ResolutionError:
+                        pass
+                    except BudgetExceeded:
+                        viols.append(Violation("C10.unbounded", "resolution of a context-free identifier did not finish", step, {"doc": d, "what": "slot_probe"}))
+                    del bare
+                except KeyError:
+                    pass
             if len(viols) >= 3:
                 break
     finally:
